@@ -151,9 +151,10 @@ pub fn sdes<S: Src, const NC: usize, const NI: usize, const L: usize, const B: u
     let j = s.upto(L);
     c.padding = 0;
     let (mut a, mut b) = ([0u8; B], [0u8; B]);
-    let na = render(&c, &mut a);
+    let na = c.render(&mut a);
     c.padding = pad;
-    let nb = render(&c, &mut b);
+    assert!(c.size() <= B, "HARNESS: buffer array too small");
+    let nb = c.render(&mut b);
     let p = Sdes::parse(&a[..na]).expect("unpadded reference SDES rejected");
     let q = Sdes::parse(&b[..nb]).expect("padded SDES rejected");
     assert!(p.padding().is_none() && q.padding() == Some(pad));
